@@ -14,7 +14,7 @@ open Golib.Proto Golib.C05
 
 def runOp (s : DState) (ts : List String) : Option (Option (String × Option (List Nat))) :=
   match ts with
-  | ["dump"] => some ((dumpLine s.t).map fun o => (o, none))
+  | ["dump"] => some ((pDumpLine s.pt).map fun o => (o, none))
   | ["sibling", pat, text] =>
     match argBytes s pat, argBytes s text with
     | some p, some x =>
